@@ -343,15 +343,19 @@ def build_and_run_twin(unit, chk, inputs, workdir, native_slices=None, obligatio
     if rc != 0:
         return 'build-failed', 'twin_main.c: ' + err[-3000:]
     objs.append(os.path.join(workdir, 'twin_main.o'))
-    if native_slices is None:
+    if native_slices is None or static:
         rep = {}
-        _, native_slices = vp.slice_unit(unit, workdir, rep)
+        cb_slices, native_slices = vp.slice_unit(unit, workdir, rep)
+        if static:
+            # the translation units cbmc sees (normalised text, environment files appended / merged as for cbmc),
+            # compiled by g++ against the real libstdc++
+            native_slices = cb_slices
     cxx = list(native_slices) + [unit.file(f) for f in unit.spec.get('env', [])] + [os.path.join(VERIF, 'env', 'base.cpp')]
     if unit.spec.get('wrap', 'wrap.cpp'):
         cxx.append(unit.file(unit.spec.get('wrap', 'wrap.cpp')))
     cxx += [unit.file(f) for f in unit.spec.get('native_extra', [])]
     for k, sp in enumerate(unit.spec.get('sources', [])):
-        if sp.get('append'):
+        if sp.get('append') and not static:
             # the files cbmc sees at the end of the sliced source form ONE native translation unit of their own
             comb = os.path.join(workdir, 'native_append_%d.cpp' % k)
             open(comb, 'w').write(''.join('#include "%s"\n' % unit.file(ap) for ap in sp['append']))
